@@ -173,6 +173,8 @@ class Ctx:
         self.dist[name] = self.dist.get(name, 0) + k
 
     def case(self, inp, nontrivial=True, sample_every=0):
+        if self.deadline is not None and time.time() > self.deadline:
+            raise StopRun()                    # only the failing-input search sets a deadline
         self.evaluations += 1
         if nontrivial:
             self.nontrivial.add(canon_hash(inp))
